@@ -278,6 +278,11 @@ class Model:
         for pin in self.pin_dic:
             if pin.mode_name is not None:
                 raise Exception("Model already has modes")
+        names = [Pin(pin.name, mode).name for pin in self.pin_dic for mode in mode_list]
+        if len(set(names)) != len(names):
+            raise ValueError(
+                f"In Model {self}: expanding to modes {mode_list} gives two pins the same name."
+            )
         self.np = len(mode_list)
         self.mode_list = mode_list
         new_pin_dic = {}
